@@ -17,7 +17,7 @@ from common import Check, Infra, harness_json, validate_chunks, workdir, tlc_mus
 # (start symbol, free start choice, budget quick, budget thorough)
 STARTS = [("E12", False, 2, 3), ("Type", False, 2, 3), ("QueryStatement", False, 2, 3), ("QS_From", False, 2, 3), ("QS_Suffix", True, 2, 3),
           ("DML", True, 1, 2), ("Call", False, 1, 2), ("DDL", True, 1, 2)]
-PROFILES = {"quick": 3, "thorough": 6}
+PROFILES = {"quick": 4, "thorough": 7}
 # C07: operator trees
 C07 = {"quick": dict(budget=3), "thorough": dict(budget=4)}
 
@@ -32,7 +32,7 @@ def generate(chk, name, budget, start, free, wd, **kw):
     out = os.path.join(wd, "tapes-%s.ndjson" % name)
     if os.path.exists(out):
         os.remove(out)
-    r = tlc_must_pass("Grammar", cfg_text(budget, start, free, out, **kw), os.path.join(wd, "gen-" + name), workers=min(16, common.NCPU), heap="12g",
+    r = tlc_must_pass("Grammar", cfg_text(budget, start, free, out, **kw), os.path.join(wd, "gen-" + name), workers=WORKERS, heap="6g",
                       timeout=6000, name="Grammar_" + name)
     chk.add_states(r)
     n = sum(1 for _ in open(out)) if os.path.exists(out) else 0
@@ -40,19 +40,23 @@ def generate(chk, name, budget, start, free, wd, **kw):
     return out, n
 
 
+WORKERS = 4
+
+
 def corpora(chk, prop, tier, wd):
-    outs = []
+    """all generator runs of the check, side by side (each TLC run with 4 workers)"""
+    jobs = []
     if prop == "C07":
         b = C07[tier]["budget"]
-        outs.append(generate(chk, "ops-min", b, "E12", False, wd, opsonly=True, leafalts=False))
-        outs.append(generate(chk, "ops-full", b, "E12", False, wd, opsonly=True, leafalts=False, wrap=True))
-        outs.append(generate(chk, "expr", 2 if tier == "quick" else 3, "E12", False, wd))
-        return outs
-    for (start, free, bq, bt) in STARTS:
-        if not has_start(start):
-            continue
-        outs.append(generate(chk, start, bq if tier == "quick" else bt, start, free, wd))
-    return outs
+        jobs.append(lambda: generate(chk, "ops-min", b, "E12", False, wd, opsonly=True, leafalts=False))
+        jobs.append(lambda: generate(chk, "ops-full", b, "E12", False, wd, opsonly=True, leafalts=False, wrap=True))
+        jobs.append(lambda: generate(chk, "expr", 2 if tier == "quick" else 3, "E12", False, wd))
+    else:
+        for (start, free, bq, bt) in STARTS:
+            if not has_start(start):
+                continue
+            jobs.append(lambda start=start, free=free, bq=bq, bt=bt: generate(chk, start, bq if tier == "quick" else bt, start, free, wd))
+    return common.parallel(jobs, 4)
 
 
 def has_start(start):
